@@ -1,11 +1,13 @@
 import GlmVerif.Spec.C02
 import GlmVerif.Spec.C08
+import GlmVerif.Spec.C09
 import GlmVerif.Spec.C10
 import GlmVerif.Spec.C12
 namespace Glm.Spec
 def familiesOf : String → List Family
   | "C02" => C02.families
   | "C08" => C08.families
+  | "C09" => C09.families
   | "C10" => C10.families
   | "C12" => C12.families
   | _ => []
